@@ -412,6 +412,26 @@ func (r *heapRun) apply(op HOp) string {
 	switch op.Kind {
 	case "add":
 		return r.doAdd(op.A)
+	case "addRun", "popRun": // bulk growth / shrinkage: sizes across many heap levels
+		k := op.A%97 + 3
+		for i := 0; i < k; i++ {
+			var msg string
+			if op.Kind == "addRun" {
+				msg = r.doAdd((op.A*7 + i*13) % 11)
+			} else {
+				if len(r.held) == 0 {
+					break
+				}
+				msg = r.doPop(0, false)
+			}
+			if msg == "" {
+				msg = r.after()
+			}
+			if msg != "" {
+				return msg
+			}
+		}
+		return ""
 	case "addMax": // never swaps
 		return r.doAdd(r.beyondMax(op.A % 3))
 	case "addSafe": // arbitrary value only when the new slot is 2^k-1
@@ -649,6 +669,8 @@ func classify(r *heapRun, c HeapCase, o *vk.Obs) {
 	o.ClassIf(r.expF2, "exposed_F2")
 	o.ClassIf(!r.expF1 && !r.expF2, "unexposed(strict)")
 	o.ClassIf(r.maxLen >= 8, "levels>=4")
+	o.ClassIf(r.maxLen >= 64, "levels>=7")
+	o.ClassIf(r.maxLen >= 256, "levels>=9")
 	o.ClassIf(r.maxLen >= 4, "levels>=3")
 	o.ClassIf(r.interiorRemoves > 0, "interior_remove")
 	o.ClassIf(r.reorders > 0, "midlife_reorder")
